@@ -63,6 +63,7 @@ class _Stream(object):
         for k in range(count):
             v = self.seam.script(self.id, self.index, kind, n)
             self.seam.log.append((self.id, self.index, kind, call))
+            self.seam.n_of[(self.id, self.index)] = n
             out[k] = v
             self.index += 1
         return out.reshape(shape) if shape else out[0]
@@ -178,6 +179,7 @@ class Seam(object):
         self.script = script or Script()
         self.log = []
         self.choice_calls = []
+        self.n_of = {}          # (stream, index) -> number of alternatives ('i')
         self.seed_calls = []
         self._fresh = 0
         self.default_rng_calls = []
